@@ -608,7 +608,55 @@ def r_state_closure(ctx, *entries):
     r_none(ctx, clo)
     r_zero(ctx, clo)
     r_dtype(ctx, clo)
+    r_negslice(ctx, clo)
     return clo
+
+
+_PARAM_MIN = {'observed_length': 1, 'vt_length': 1, 'dna_length': 0, 'bit_length': 0, 'max_homopolymer_runs': 1}
+
+
+def r_negslice(ctx, fqs):
+    """s[-0:] is the whole sequence and s[:-0] the empty one"""
+    run = ctx.run
+    run.rule('R-NEGZERO', "a slice bound written as -(E), E affine in a length parameter, is never 0 for an admissible value of that "
+                          "parameter (observed_length >= 1, vt_length >= 1, dna_length >= 0): -0 is 0, so s[-0:] is ALL of s and "
+                          "s[:-0] is empty - the opposite of the 'last 0' / 'all but the last 0' items that were meant")
+    from .repair import affine
+    n = 0
+    for fq in sorted(fqs):
+        f = ctx.p.func(fq)
+        if f is None:
+            continue
+        seen = set()
+        for nd, s in ctx.all_subterms(f):
+            if s[0] != 'slice':
+                continue
+            for which, b in (('lower', s[1]), ('upper', s[2])):
+                if not (b[0] == 'un' and b[1] == '-') and not (b[0] == 'bin' and b[1] == '-' and b[2] == ('c', 0)):
+                    continue
+                e = b[2] if b[0] == 'un' else b[3]
+                a = affine(e)
+                if not a:
+                    continue
+                syms = [x for x in a if x != 1]
+                if len(syms) != 1 or syms[0][0] != 'v' or syms[0][2] != 'P' or syms[0][1] not in _PARAM_MIN or a[syms[0]] <= 0:
+                    continue
+                p = syms[0][1]
+                # E = c*p + d is zero at p0 = -d/c
+                c, d = a[syms[0]], a.get(1, 0)
+                if (-d) % c != 0:
+                    continue
+                p0 = (-d) // c
+                if p0 >= _PARAM_MIN[p] and (nd.id, which, b) not in seen:
+                    seen.add((nd.id, which, b))
+                    n += 1
+                    run.refute('R-NEGZERO', f, 'slice-bound-minus-zero', nd.lineno,
+                               'the %s slice bound %s is -0 = 0 for %s = %d: the slice is then %s, not %s'
+                               % (which, show(b)[:40], p, p0,
+                                  'the whole sequence' if which == 'lower' else 'empty',
+                                  'the empty suffix' if which == 'lower' else 'the whole sequence'),
+                               inputs='%s = %d' % (p, p0))
+    run.notes.append('R-NEGZERO: %d slice bounds that can be -0' % n)
 
 
 def _positions(t):
@@ -617,6 +665,13 @@ def _positions(t):
                                               (t[1][0] == 'call' and t[1][1][0] == 'attr' and t[1][1][2] == 'nonzero')):
         return True
     return is_call(t, 'numpy.flatnonzero', 'numpy.argwhere')
+
+
+def _arith_int(t):
+    """an integer computed by modular / floor arithmetic: 0 is one of its values"""
+    while is_call(t, 'builtins.int') and t[2]:
+        t = t[2][0]
+    return t[0] == 'bin' and t[1] in ('%', '//', '&', '>>')
 
 
 def r_zero(ctx, fqs):
@@ -649,6 +704,69 @@ def r_zero(ctx, fqs):
                            '%s() is applied to the positions %s: position 0 (nucleotide A / vertex AA..A / the first row) is falsy, so a '
                            'selection that consists of position 0 alone is judged empty' % (fn, show(arg)[:60]),
                            inputs='a vertex whose only arc is A; a mask that selects only the all-A k-mer')
+    # numpy.all / numpy.any of a GENERATOR: numpy wraps the generator object in a 0-d object array, which is truthy - the
+    # elements are never looked at (a module that does `from numpy import all, any` shadows the builtins)
+    for fq in sorted(fqs):
+        f = ctx.p.func(fq)
+        if f is None:
+            continue
+        seen = set()
+        for nd, s in ctx.all_subterms(f):
+            if is_call(s, 'numpy.all', 'numpy.any') and len(s[2]) == 1 and s[2][0][0] == 'comp' and s[2][0][1] == 'gen' and \
+                    (nd.id, s) not in seen:
+                seen.add((nd.id, s))
+                n += 1
+                run.refute('R-ZERO', f, 'numpy-reduction-of-a-generator', nd.lineno,
+                           '`%s` resolves to numpy.%s here (imported from numpy in this module) and is given a generator expression: numpy '
+                           'does not iterate it, the result is True whatever the elements are, so the test it implements never fails'
+                           % (show(s)[:60], s[1][1].split('.')[-1]),
+                           inputs='every input for which some element violates the tested condition')
+    # `c and v or d`: the pre-conditional-expression idiom answers d whenever v is falsy - vertex 0, letter index 0
+    K = ctx.kinds
+    for fq in sorted(fqs):
+        f = ctx.p.func(fq)
+        if f is None:
+            continue
+        for nd in f.nodes:
+            for r in ctx.roots(nd):
+                for e in ast.walk(r):
+                    if isinstance(e, ast.BoolOp) and isinstance(e.op, ast.Or) and len(e.values) == 2 and \
+                            isinstance(e.values[0], ast.BoolOp) and isinstance(e.values[0].op, ast.And) and len(e.values[0].values) == 2:
+                        v = e.values[0].values[1]
+                        if isinstance(v, (ast.Compare, ast.Constant)):
+                            continue
+                        try:
+                            tv = f.term(v, nd)
+                        except AnalysisError:
+                            continue
+                        src = tv
+                        if src[0] == 'v' and src[2] != 'P' and src[1] not in f.params:
+                            pass
+                        comp_src = None
+                        if isinstance(v, ast.Name):
+                            # a comprehension variable: look at what it iterates
+                            for c_ in ast.walk(r):
+                                if isinstance(c_, (ast.ListComp, ast.GeneratorExp, ast.SetComp)):
+                                    for g_ in c_.generators:
+                                        if isinstance(g_.target, ast.Name) and g_.target.id == v.id:
+                                            comp_src = f.term(g_.iter, nd)
+                        is_index = K.kind(tv, f) == 'ENTRY' or tv[0] == 'idx' or \
+                            (tv[0] == 'iter' and (is_call(tv[1], 'builtins.range') or K.kind(tv[1], f) in ('ROW', 'ENTRY'))) or \
+                            (comp_src is not None and (is_call(comp_src, 'builtins.range') or K.kind(comp_src, f) in ('ROW', 'ENTRY') or
+                                                       any((call_name(x) or '').endswith(('.obtain_latters', '.obtain_formers'))
+                                                           for x in walk_term(comp_src)) or
+                                                       (comp_src[0] == 'v' and any(
+                                                           d.kind == 'mutate' and d.value is not None and
+                                                           (K.kind(f.term(d.value, f.nodes[d.node])[2][0], f) == 'ENTRY' or
+                                                            _arith_int(f.term(d.value, f.nodes[d.node])[2][0]))
+                                                           for d in f.defs if d.name == comp_src[1] and isinstance(d.extra, ast.Attribute)
+                                                           and d.extra.attr == 'append' and f.term(d.value, f.nodes[d.node])[2]))))
+                        if is_index:
+                            n += 1
+                            run.refute('R-ZERO', f, 'and-or-idiom-on-an-index', nd.lineno,
+                                       '`%s` yields the fallback whenever `%s` is falsy: vertex index 0 (AA..A) / position 0 is a legitimate '
+                                       'value and is replaced by the fallback' % (ast.unparse(e)[:60], ast.unparse(v)[:30]),
+                                       inputs='graphs or masks that contain the all-A vertex 0')
     run.notes.append('R-ZERO: %d reductions of position arrays' % n)
 
 
@@ -700,7 +818,52 @@ def r_dtype(ctx, fqs):
                            '%s takes its dtype from the caller\'s array: for an unsigned or boolean argument (a 0/1 adjacency matrix is '
                            'naturally uint8 or bool) -1 wraps to 255 / True, for a narrow one vertex indices overflow' % show(s)[:70],
                            inputs='arguments of dtype uint8 / bool / int8')
-    run.notes.append('R-DTYPE: %d negative-valued allocations' % n)
+    # a difference of two unsigned arrays wraps below zero
+    def dtype_name(call):
+        dt = dict(call[3]).get('dtype')
+        if dt is None and call[1][0] == 'g' and call[1][1] in ('numpy.frombuffer', 'numpy.array', 'numpy.asarray') and len(call[2]) >= 2:
+            dt = call[2][1]
+        if dt is None:
+            return None
+        if dt[0] == 'c' and isinstance(dt[1], str):
+            return dt[1]
+        if dt[0] == 'g':
+            return dt[1].split('.')[-1]
+        if dt[0] == 'attr':
+            return dt[2]
+        return None
+
+    def unsigned_root(t, depth=0):
+        if depth > 12:
+            return None
+        if t[0] == 'sub':
+            return unsigned_root(t[1], depth + 1)
+        if t[0] == 'bin' and t[1] in ('>>', '&', '|', '^', '<<', '//', '%'):
+            return unsigned_root(t[2], depth + 1) or (unsigned_root(t[3], depth + 1) if t[3][0] != 'c' else None)
+        if t[0] == 'call' and t[1][0] == 'attr' and t[1][2] == 'astype' and t[2]:
+            nm = t[2][0][1] if t[2][0][0] == 'c' else (t[2][0][1].split('.')[-1] if t[2][0][0] == 'g' else None)
+            return nm if nm in _UNSIGNED and not str(nm).startswith('bool') and nm != '?' else None
+        if t[0] == 'call' and t[1][0] == 'g' and t[1][1].startswith('numpy.'):
+            nm = dtype_name(t)
+            return nm if nm in _UNSIGNED and not str(nm).startswith('bool') and nm != '?' else None
+        return None
+    for fq in sorted(fqs):
+        f = ctx.p.func(fq)
+        if f is None:
+            continue
+        seen = set()
+        for nd, s in ctx.all_subterms(f):
+            if s[0] == 'bin' and s[1] == '-' and s not in seen:
+                a, b = unsigned_root(s[2]), unsigned_root(s[3])
+                if a and b:
+                    seen.add(s)
+                    n += 1
+                    run.refute('R-DTYPE', f, 'unsigned-difference', nd.lineno,
+                               'the difference %s is taken between two %s arrays: where the right operand is larger the result wraps to '
+                               '%s instead of going negative, and everything accumulated from it is wrong'
+                               % (show(s)[:70], a, {'uint8': '255', 'u1': '255', 'B': '255'}.get(a, 'a huge positive number')),
+                               inputs='inputs for which the subtrahend exceeds the minuend at some position')
+    run.notes.append('R-DTYPE: %d negative-valued allocations / unsigned differences' % n)
 
 
 def r_none(ctx, fqs):
